@@ -9,16 +9,13 @@ Local Open Scope N_scope.
 Section Wedge.
   Variable hash : header -> bytes.
   Variable ethash_ok : header -> bool.
-  Hypothesis hash_len : forall a, length (hash a) = 32%nat.
-  Hypothesis hash_num : forall a b, h_num a < two63 -> h_num b < two63 -> hash a = hash b -> h_num a = h_num b.
-  Hypothesis hash_parent : forall a b, h_num a < two63 -> h_num b < two63 -> hash a = hash b ->
-                                       to_hash (h_parent a) = to_hash (h_parent b).
+  Variable U : header -> Prop.
   Variable r0 g0 : N.
   Notation idx_wf := (idx_wf hash r0).
   Notation wf_hdr := (wf_hdr r0).
   Notation key := (key hash).
   Notation Stored := (Stored hash).
-  Notation Inv := (Inv hash r0 g0).
+  Notation Inv := (Inv hash r0 g0 U).
 
   (** * The fuel of RestrictChain suffices: a chain of stored ancestors is not longer than the index *)
   Lemma anc_length ix x J a :
@@ -77,13 +74,13 @@ Section Wedge.
   Qed.
 
   (** * The re-pointing loop succeeds on the collected hashes *)
-  Lemma repoint_ok ix2 h J new2 (c : cmap) :
+  Lemma repoint_ok fr ix2 h J new2 (c : cmap) (rm : rmap) :
     idx_wf ix2 -> h_num h < two63 -> Stored ix2 h -> h_rev h = r0 -> nth_anc ix2 h J = Some new2 ->
-    repoint ix2 (h_rev h) (h_num new2) (hash new2 :: push hash ix2 h J []) c
-      = Ok (fold_left (setc r0) (rev (ancs ix2 h J)) c).
+    repoint fr ix2 (h_rev h) (h_num new2) (hash new2 :: push hash ix2 h J []) c rm
+      = Ok (fold_left (setc r0) (rev (ancs ix2 h J)) c, rfold hash fr (rev (ancs ix2 h J)) rm).
   Proof.
     intros WF2 Hh S2h Hrev A. rewrite (push_ancs hash ix2 h J [] new2 A), app_nil_r, Hrev.
-    apply repoint_spec.
+    apply (repoint_spec hash).
     - intros a Ia. apply in_rev in Ia. destruct (ancs_in _ _ _ _ Ia) as [i [_ Ei]].
       split; [exact (nth_anc_stored _ _ _ _ _ _ WF2 Hh S2h Ei) | exact (proj2 (nth_anc_num _ _ _ _ _ _ WF2 Hh Ei))].
     - exact (ancs_asc hash r0 ix2 J h new2 WF2 Hh A).
@@ -92,13 +89,16 @@ Section Wedge.
   (** * RestrictChain succeeds when the branches meet *)
   Lemma restrict_complete s1 L D h J m x y :
     Inv s1 L D -> wf_hdr h ->
-    (forall a, Stored (idx s1) a -> h_num a = h_num h -> to_hash (h_root a) = to_hash (h_root h) -> key a = key h) ->
+    (fix_root = false ->
+     forall a, Stored (idx s1) a -> h_num a = h_num h -> to_hash (h_root a) = to_hash (h_root h) -> key a = key h) ->
     (forall a, iget (key h) (idx s1) = Some a -> a = h) ->
+    (fix_root = true -> g0 <= h_num h) ->
+    (fix_root = true -> forall d, In d D -> key h <> key d) ->
     nth_anc (iset (key h) h (idx s1)) h J = Some x -> nth_error L m = Some y ->
     h_num x = h_num y -> h_parent y = h_parent x ->
-    exists c3, restrict_chain hash (store_header hash s1 h) (head s1) h = Ok c3.
+    exists r3, restrict_chain hash (store_header hash s1 h) (head s1) h = Ok r3.
   Proof.
-    intros I1 Wh Hfresh Hnoalias Ax Ey Exy Ep.
+    intros I1 Wh Hfresh Hnoalias Hg0 Hdead Ax Ey Exy Ep.
     set (ix2 := iset (key h) h (idx s1)) in *. set (old := head s1).
     pose proof Wh as [Hrev [Hh Hgl]].
     pose proof (inv_wf _ _ _ _ _ _ _ I1) as WF1.
@@ -119,9 +119,27 @@ Section Wedge.
     - (* the head is higher *)
       destruct (main_at _ _ _ _ _ WF1 Hold M1 (h_num h)) as [y0 [Ey0 Ny0]]; [lia|].
       set (i0 := N.to_nat (h_num old - h_num h)) in *.
-      destruct (restrict_current hash r0 g0 s1 L D h I1 Wh Hfresh Hnoalias y0 i0 Lt Ey0 Ny0) as [C1 [C2 C3]].
-      change (cons (store_header hash s1 h)) with (cons s1) in C1. rewrite C1. cbn [c_root cstate_of].
-      rewrite C2. change (idx (store_header hash s1 h)) with ix2 in C3. rewrite C3. cbn [obind fst snd].
+      assert (Start : (if fix_root then cur <- walk0 (S (length ix2)) ix2 old (h_num old) (h_num h) ;; Ok (cur, h_num h)
+                       else match cget (h_rev h, h_num h) (cons s1) with
+                            | None => Err
+                            | Some c => match rget (to_hash (c_root c), h_num h) (rmain (store_header hash s1 h)) with
+                                        | None => Err
+                                        | Some ik => match iget ik ix2 with None => Err | Some cur => Ok (cur, h_num h) end
+                                        end
+                            end) = Ok (y0, h_num h)).
+      { destruct (Bool.bool_dec fix_root true) as [FR|FR]; [|apply Bool.not_true_is_false in FR]; rewrite FR.
+        - assert (A0 : nth_anc ix2 old i0 = Some y0).
+          { unfold ix2, old. rewrite (store_main_same hash r0 g0 U s1 L D h I1 Wh Hnoalias (Hg0 FR) (Hdead FR)). fold old. rewrite M1. exact Ey0. }
+          pose proof (anc_length ix2 old i0 y0 WF2) as Len.
+          assert (So2 : Stored ix2 old).
+          { unfold EthChain.Stored. apply (store_mono hash (idx s1) h Hnoalias). exact (inv_head _ _ _ _ _ _ _ I1). }
+          specialize (Len Hold So2 A0).
+          rewrite (walk0_eq ix2 i0 (S (length ix2)) old (h_num old) (h_num h)); [rewrite A0; reflexivity | | reflexivity | lia].
+          pose proof two63_lt_two64; lia.
+        - destruct (restrict_current hash r0 g0 U s1 L D h I1 Wh Hfresh Hnoalias y0 i0 FR Lt Ey0 Ny0) as [C1 [C2 C3]].
+          change (cons (store_header hash s1 h)) with (cons s1) in C1. rewrite C1. cbn [c_root cstate_of].
+          rewrite C2. change (idx (store_header hash s1 h)) with ix2 in C3. rewrite C3. reflexivity. }
+      rewrite Start. cbn [obind fst snd].
       cbn [walk1]. rewrite N.ltb_irrefl. cbn [obind].
       (* the main-chain header reached after J steps from y0 is y *)
       assert (Em : m = (i0 + J)%nat) by (unfold i0; lia).
@@ -131,7 +149,7 @@ Section Wedge.
       destruct (walk2_complete hash r0 ix2 J (S (length ix2)) y0 h (h_num h) [] x y WF2 Hh Ax By Ep) as [[[new2 ti2] acc2] W2]; [lia|].
       rewrite W2. cbn [obind].
       destruct (walk2_sound hash r0 ix2 _ _ _ _ _ _ _ _ WF2 Hh eq_refl W2) as [j [cur2 [_ [A [_ [_ [-> ->]]]]]]].
-      rewrite (repoint_ok ix2 h j new2 (cons s1) WF2 Hh S2h Hrev A). eexists; reflexivity.
+      rewrite (repoint_ok fix_root ix2 h j new2 (cons s1) _ WF2 Hh S2h Hrev A). eexists; reflexivity.
     - (* the head is not higher *)
       cbn [obind fst snd].
       set (d := N.to_nat (h_num h - h_num old)).
@@ -153,7 +171,7 @@ Section Wedge.
       destruct (walk2_sound hash r0 ix2 _ _ _ _ _ _ _ _ WF2 Ha1 eq_refl W2) as [j [cur2 [_ [A [_ [_ [-> ->]]]]]]].
       assert (AJ : nth_anc ix2 h (d + j) = Some new2) by (rewrite nth_anc_add, A1; exact A).
       rewrite <- (push_add hash ix2 h d j [] a1 A1).
-      rewrite (repoint_ok ix2 h (d + j) new2 (cons s1) WF2 Hh S2h Hrev AJ). eexists; reflexivity.
+      rewrite (repoint_ok fix_root ix2 h (d + j) new2 (cons s1) _ WF2 Hh S2h Hrev AJ). eexists; reflexivity.
   Qed.
 
   (** * From the executable [meets] to a meeting point *)
@@ -206,15 +224,29 @@ Section Wedge.
   Qed.
 
   (** * No wedge *)
-  Theorem no_wedge s L D bt h :
-    Inv s L D -> should_accept hash ethash_ok bt s h = true ->
+  (** the two stored branches meet at a height not below [lo]: an ancestor-or-self [x] of the new
+      header (reached through [J] stored parents) and the main-chain header [y] of the same height
+      are children of the same header *)
+  Definition MeetsAt (s : state) (L : list header) (h : header) (lo : N) : Prop :=
+    exists J x y, nth_anc (idx s) h J = Some x /\ In y L /\ h_num x = h_num y /\ lo <= h_num x /\ h_parent y = h_parent x.
+
+  Theorem no_wedge_core s L D bt h :
+    Inv s L D ->
+    active bt s = true -> valid_child_b hash ethash_ok bt s h = true -> h_rev h = h_rev (head s) ->
+    exp_ok cur bt s h = true ->
+    (fix_root = true \/ fresh_root_b hash s h = true) -> noalias_b hash s h = true ->
+    (* needed by the repaired variant only: the hash of [h] determines its parent key (Props: [h] is in the universe) *)
+    (fix_root = true -> forall d, h_num d < two63 -> U d -> key h = key d -> pkey h = pkey d) ->
+    (beq (hash (head s)) (h_parent h) = true \/
+     MeetsAt s L h (if prune_due bt s then low (head s) L + 1 else low (head s) L)) ->
     exists s', update_client hash ethash_ok bt s h = Ok s' /\ head s' = h.
   Proof.
-    intros I SA. unfold should_accept in SA. rewrite !andb_true_iff in SA.
-    destruct SA as [[[[[Act V] Rv] Fr] Na] CM].
+    intros I Act V Rv Ex Fr' Na Hpk CM.
+    assert (Fr : fix_root = false -> fresh_root_b hash s h = true).
+    { intro F. destruct Fr' as [T|Fr]; [rewrite F in T; discriminate T | exact Fr]. }
     pose proof (inv_wf _ _ _ _ _ _ _ I) as WF.
     destruct (inv_head_wf _ _ _ _ _ _ _ I) as [Hr0 [Hold _]].
-    apply N.eqb_eq in Rv. rewrite Hr0 in Rv.
+    rewrite Hr0 in Rv.
     destruct (valid_child_parent _ _ _ _ _ V) as [H1 [Hh [p [Ep [Hp Ru]]]]].
     assert (Hgl : h_gaslimit h < two63).
     { unfold rules_b in Ru. rewrite !andb_true_iff in Ru. apply validate_basic_gaslimit. tauto. }
@@ -222,47 +254,86 @@ Section Wedge.
     assert (H64 : h_num h < two64) by (pose proof two63_lt_two64; lia).
     assert (PP : parent_of (idx s) h = Some p) by (unfold parent_of; rewrite sub64_pred by assumption; exact Ep).
     assert (CV : check_validity hash ethash_ok bt s h = Ok tt).
-    { rewrite (check_validity_eq hash ethash_ok r0 bt s h WF Hh), V. reflexivity. }
+    { unfold check_validity. rewrite (check_validity_eq hash ethash_ok cur r0 bt s h WF Hh), V, Ex.
+      unfold rev_ok. rewrite Rv, <- Hr0, N.eqb_refl, orb_true_r. reflexivity. }
     (* it suffices to make the re-pointing step succeed *)
+    assert (Hg0 : g0 <= h_num h).
+    { destruct (stored_lookup _ _ _ _ _ _ WF Ep) as [Sp Kp]. pose proof (inv_low _ _ _ _ _ _ _ I p Sp) as Q.
+      assert (Np : h_num p = h_num h - 1) by (inversion Kp; reflexivity). lia. }
+    assert (NotKey : fix_root = true -> forall d, h_num d < two63 -> U d -> iget (pkey d) (idx s) = None -> key h <> key d).
+    { intros F d Hd Ud Nd K. pose proof (Hpk F d Hd Ud K) as E.
+      unfold parent_of in PP. change (to_hash (h_parent h), sub64 (h_num h) 1) with (pkey h) in PP. rewrite E in PP. congruence. }
+    assert (Hdead : fix_root = true -> forall d, In d D -> key h <> key d).
+    { intros F d Id.
+      assert (Range : forall x n a, iget (x, n) (idx s) = Some a -> g0 <= n < two63).
+      { intros x n a E. destruct (stored_lookup _ _ _ _ _ _ WF E) as [Sa Ka].
+        destruct (stored_wf _ _ _ _ WF Sa) as [_ [Q _]]. pose proof (inv_low _ _ _ _ _ _ _ I a Sa).
+        inversion Ka; subst. lia. }
+      destruct (deadpath_parent_gone _ _ _ _ _ _ Range (inv_dead _ _ _ _ _ _ _ I)) as [_ DeadD].
+      destruct (DeadD d Id) as [Nd [Hd Ud]]. exact (NotKey F d Hd Ud Nd). }
     assert (Suff : forall s1, prune bt s = Ok s1 ->
-              (exists c3, (if negb (beq (hash (head s)) (h_parent h))
+              (exists r3, (if negb (beq (hash (head s)) (h_parent h))
                            then restrict_chain hash (store_header hash s1 h) (head s) h
-                           else Ok (cons (store_header hash s1 h))) = Ok c3) ->
+                           else Ok (cons (store_header hash s1 h), rmain (store_header hash s1 h))) = Ok r3) ->
               exists s', update_client hash ethash_ok bt s h = Ok s' /\ head s' = h).
-    { intros s1 P [c3 R]. unfold update_client, update_client_gen, check_header_gen.
+    { intros s1 P [c3 R]. unfold update_client, update_client_gen, check_header_gen. change (v_d2 cur) with true.
+      change (v_root cur) with fix_root.
+      fold (check_validity hash ethash_ok).
       rewrite Act. cbn [negb]. unfold active in Act.
       destruct (cget (h_rev (head s), h_num (head s)) (cons s)); [|discriminate].
       rewrite CV, P. cbn [obind]. fold (restrict_chain hash). rewrite R. cbn [obind].
       eexists. split; reflexivity. }
-    destruct (beq (hash (head s)) (h_parent h)) eqn:B; cbn [negb orb] in *.
+    destruct (beq (hash (head s)) (h_parent h)) eqn:B; cbn [negb] in *.
     { (* the new header extends the head: no re-pointing *)
       destruct (prune_spec hash r0 g0 U bt s L D I Act) as [[_ P0]|[_ [L1 [aL [_ [_ [P1 _]]]]]]].
       - apply (Suff s P0). eexists; reflexivity.
       - apply (Suff _ P1). eexists; reflexivity. }
+    destruct CM as [CM|CM]; [discriminate|].
     destruct (prune_spec hash r0 g0 U bt s L D I Act) as [[PD P0]|[PD [L1 [aL [EqL [NE1 [P1 [I1 [Low1 [SaL PaL]]]]]]]]]];
       rewrite PD in CM.
     - (* nothing pruned *)
       apply (Suff s P0).
-      destruct (meets_core s L D h (base s) p I PP CM) as [J [x [y [Ax [Iy [Exy [_ Epar]]]]]]].
+      destruct CM as [J [x [y [Ax [Iy [Exy [_ Epar]]]]]]].
       apply In_nth_error in Iy. destruct Iy as [m Ey].
-      apply (restrict_complete s L D h J m x y I Wh (fresh_root_prop hash s h Fr) (noalias_prop hash s h Na)); try assumption.
+      apply (restrict_complete s L D h J m x y I Wh (fun F => fresh_root_prop hash s h (Fr F)) (noalias_prop hash s h Na) (fun _ => Hg0) Hdead); try assumption.
       rewrite (store_anc hash r0) by (try assumption; lia). exact Ax.
     - (* the earliest state is pruned first: the meeting point must lie above it *)
       apply (Suff _ P1).
-      destruct (inv_main_chain _ _ _ I) as [_ Bs]. rewrite Bs in CM.
-      destruct (meets_core s L D h (low (head s) L + 1) p I PP CM) as [J [x [y [Ax [Iy [Exy [Lo Epar]]]]]]].
+      destruct CM as [J [x [y [Ax [Iy [Exy [Lo Epar]]]]]]].
       assert (LowL : low (head s) L = h_num aL) by (unfold low; rewrite EqL, last_last; reflexivity).
       assert (Iy1 : In y L1).
       { rewrite EqL in Iy. apply in_app_or in Iy. destruct Iy as [Iy|[<-|[]]]; [exact Iy|]. lia. }
       apply In_nth_error in Iy1. destruct Iy1 as [m Ey].
       change (head s) with (head (pruned hash r0 s aL)).
       apply (restrict_complete (pruned hash r0 s aL) L1 (aL :: D) h J m x y I1 Wh); try assumption.
-      + intros a Sa. apply (fresh_root_prop hash s h Fr). exact (idel_sub hash _ _ _ _ Sa).
-      + intros a Ea. apply (noalias_prop hash s h Na). exact (idel_sub hash _ _ _ _ Ea).
+      + intros F a Sa. apply (fresh_root_prop hash s h (Fr F)). exact (idel_sub hash U _ _ _ _ Sa).
+      + intros a Ea. apply (noalias_prop hash s h Na). exact (idel_sub hash U _ _ _ _ Ea).
+      + intros _. exact Hg0.
+      + intros F d [<-|Id]; [|exact (Hdead F d Id)].
+        (* the header pruned by this very update: its parent key holds nothing, the new header's holds p *)
+        apply (NotKey F aL); [exact (proj1 (proj2 (stored_wf _ _ _ _ WF SaL))) | exact (inv_univ _ _ _ _ _ _ _ I _ SaL) | exact PaL].
       + cbn [pruned idx]. rewrite (store_anc hash r0).
         * apply (anc_transfer_del (idx s) (key aL) h J x (h_num aL)); try assumption; [reflexivity | lia].
         * exact (inv_wf _ _ _ _ _ _ _ I1).
         * lia.
         * exact Hh.
+  Qed.
+
+  (** the executable form used by the monitor: [should_accept] implies the hypotheses above *)
+  Theorem no_wedge s L D bt h :
+    Inv s L D -> should_accept hash ethash_ok bt s h = true ->
+    (fix_root = true -> forall d, h_num d < two63 -> U d -> key h = key d -> pkey h = pkey d) ->
+    exists s', update_client hash ethash_ok bt s h = Ok s' /\ head s' = h.
+  Proof.
+    intros I SA Hpk. unfold should_accept in SA. rewrite !andb_true_iff in SA.
+    destruct SA as [[[[[[Act V] Rv] Ex] Fr] Na] CM].
+    apply N.eqb_eq in Rv. apply orb_true_iff in Fr.
+    apply (no_wedge_core s L D bt h I Act V Rv Ex Fr Na Hpk).
+    apply orb_true_iff in CM. destruct CM as [CM|CM]; [left; exact CM | right].
+    destruct (valid_child_parent _ _ _ _ _ V) as [H1 [Hh [p [Ep [Hp Ru]]]]].
+    assert (H64 : h_num h < two64) by (pose proof two63_lt_two64; lia).
+    assert (PP : parent_of (idx s) h = Some p) by (unfold parent_of; rewrite sub64_pred by assumption; exact Ep).
+    destruct (inv_main_chain _ _ _ I) as [_ Bs]. rewrite Bs in CM.
+    exact (meets_core s L D h _ p I PP CM).
   Qed.
 End Wedge.
